@@ -242,6 +242,29 @@ fn gen_host(i: usize, w: &mut Rng, twin_of: Option<&HostCfg>, twin_dim: u64) -> 
             2 => {
                 h.v6 = !t.v6;
             }
+            // 4: the VLAN stacks differ by one tag (an added priority tag with
+            // id 0 or another id, or one tag less)
+            4 if t.link != Link::BareIp && (t.vlans.len() + usize::from(t.macsec.is_some()) < 3 || !t.vlans.is_empty()) => {
+                let can_add = t.vlans.len() + usize::from(t.macsec.is_some()) < 3;
+                if can_add && (t.vlans.is_empty() || w.bool()) {
+                    let at = w.usize_range(0, t.vlans.len());
+                    let vid = if w.chance(2, 3) { 0 } else { w.u16() & 0xfff };
+                    h.vlans.insert(at, (*w.pick(&[0x8100u16, 0x88a8, 0x9100]), vid));
+                    if let Some((m, sci)) = h.macsec {
+                        if m >= at {
+                            h.macsec = Some((m + 1, sci));
+                        }
+                    }
+                } else {
+                    let at = w.usize_range(0, t.vlans.len() - 1);
+                    h.vlans.remove(at);
+                    if let Some((m, sci)) = h.macsec {
+                        if m > at {
+                            h.macsec = Some((m - 1, sci));
+                        }
+                    }
+                }
+            }
             // 3: identical stream key dimensions; the twin's datagrams then
             // differ from the sibling's only in the upper 16 bits of the
             // (32-bit, IPv6) identification - see `plan`
@@ -393,7 +416,7 @@ impl World {
         let mut hosts: Vec<HostCfg> = Vec::new();
         for i in 0..cfg.hosts {
             let twin = if cfg.twins && i % 2 == 1 { hosts.get(i - 1).cloned() } else { None };
-            let dim = w.below(4);
+            let dim = w.below(5);
             hosts.push(gen_host(i, &mut w, twin.as_ref(), dim));
         }
         let mut world = World {
@@ -535,7 +558,9 @@ impl World {
     /// corrupt / truncate / pad decisions, then Arrive events.
     fn transmit(&mut self, host: usize, f: &Frag, clean_truth: bool, faults_on: bool, stats: &mut Stats) {
         let h = self.hosts[host].clone();
-        let pad = if self.net.prob(self.cfg.p_pad) && h.link != Link::BareIp && !(h.v6 && h.v6_zero_len) { self.net.usize_range(1, 40) } else { 0 };
+        // trailer behind the IP packet (Ethernet padding, capture trailer) -
+        // also for frames that start at the IP header
+        let pad = if self.net.prob(self.cfg.p_pad) && !(h.v6 && h.v6_zero_len) { self.net.usize_range(1, 40) } else { 0 };
         let atomic_first = h.v6 && h.v6_pre.iter().any(|e| e.kind == 44);
         let ttl = 64;
         let (frame, payload_at) = encode_fragment(&h, f, pad, ttl);
